@@ -47,6 +47,12 @@ MC_CFG = """CONSTANTS
   HistLens <- MCNone
   HistGeoms <- MCNone
   HistLen = 0
+  DerShapes <- MCNone
+  DerLens <- MCNone
+  DerGeoms <- MCNone
+  DerOps <- MCNone
+  ProjShapes <- MCProjShapes
+  AngleQs <- MCAngleQs
 SPECIFICATION Spec
 INVARIANT GridAsBuilt
 PROPERTY GridNeverWritten
@@ -59,6 +65,7 @@ INVARIANT CentreCase
 INVARIANT PostconditionIsTight
 INVARIANT TinyJudgedByDirection
 INVARIANT LineAnyDirection
+INVARIANT QuarterTurnsPinned
 INVARIANT Line1DAnyDirection
 """
 
@@ -77,10 +84,17 @@ MC_H_CFG = """CONSTANTS
   HistLens <- MCHistLens
   HistGeoms <- MCHistGeoms
   HistLen <- MCHistLen
+  DerShapes <- MCDerShapes
+  DerLens <- MCDerLens
+  DerGeoms <- MCDerGeoms
+  DerOps <- MCDerOps
+  ProjShapes <- MCNone
+  AngleQs <- MCNone
 SPECIFICATION SpecH
 INVARIANT GridAsBuilt
 INVARIANT HistorySeesBuiltGrid
 INVARIANT HistoryShape
+INVARIANT TermsDenoteCoordinates
 PROPERTY GridNeverWritten
 """
 
@@ -99,6 +113,12 @@ TRACE_CFG = """CONSTANTS
   HistLens = {}
   HistGeoms = {}
   HistLen = 0
+  DerShapes = {}
+  DerLens = {}
+  DerGeoms = {}
+  DerOps = {}
+  ProjShapes = {}
+  AngleQs = {}
 SPECIFICATION TraceSpec
 POSTCONDITION TraceAccepted
 """
@@ -269,6 +289,34 @@ def _profiles():
 # gamma: instance -> concrete objects
 # ---------------------------------------------------------------------------------------------
 TAUS = (0.25, 0.125, 0.05, 1.0 / 3.0, 1.0)
+DYADIC_TAUS = (0.25, 0.125, 0.5, 1.0)
+DS = 16384
+NO_ANGLE = -1000.0
+_P = math.degrees(math.atan2(3.0, 4.0))   # 36.87 degrees: the 3-4-5 angle
+# profile angles: every quadrant, negative, beyond a full turn; multiples of 90 keep the projected line on the lattice
+ANGLES_90 = (0.0, 90.0, 180.0, 270.0, -90.0, -180.0, 360.0, 450.0)
+ANGLES_NUMERIC = (45.0, 30.0, 120.0, 200.0, -100.0, 315.0, _P, 90.0 - _P, 90.0 + _P, 180.0 + _P, 270.0 - _P, -_P, 360.0 + _P)
+
+
+def _angle_pool(rng):
+    r = rng.random()
+    if r < 0.12:
+        return NO_ANGLE
+    if r < 0.5:
+        return float(ANGLES_90[int(rng.integers(0, len(ANGLES_90)))])
+    if r < 0.85:
+        return float(ANGLES_NUMERIC[int(rng.integers(0, len(ANGLES_NUMERIC)))])
+    return float(np.round(rng.uniform(-360, 720), 3))
+
+
+def line_direction(theta):
+    """The documented direction of a projected line: the +x half-line rotated CLOCKWISE by theta degrees, as (y, x)
+    components; returned as (aq, D): aq = theta / 90 when that is an integer (else 99), D = round(DS * unit vector) computed with
+    math.sin / math.cos (the mathematical functions, not the implementation under test)."""
+    t = math.radians(theta)
+    D = [int(round(-math.sin(t) * DS)), int(round(math.cos(t) * DS))]
+    aq = int(round(theta / 90.0)) if float(theta / 90.0).is_integer() else 99
+    return aq, D
 
 
 def complete(inst, seed):
@@ -353,7 +401,10 @@ def complete(inst, seed):
     inst.setdefault("quarter", int(rng.integers(0, 4)))
     inst.setdefault("keep", bool(rng.integers(0, 2)))
     if "angle" not in inst:
-        inst["angle"] = [-1000.0, 0.0, 30.0, 90.0, float(np.round(rng.uniform(-180, 180), 3))][int(rng.integers(0, 5))]
+        aq = inst["par"][3] if (api == "project" and gk != "irr") else 98
+        # enumerated project instances carry the profile angle in quarter turns (99 = no angle attribute, 98 = numeric)
+        inst["angle"] = NO_ANGLE if aq == 99 else (90.0 * aq if aq != 98 else
+                                                   (_angle_pool(rng) if api != "project" else float(ANGLES_NUMERIC[int(rng.integers(0, len(ANGLES_NUMERIC)))])))
     return inst
 
 
@@ -466,6 +517,14 @@ def _exact_units(points, tau):
     return r.astype(np.int64).tolist()
 
 
+def _units_or_off(points, tau, off=99999):
+    """Exact lattice integers, `off` for a component that is not exactly on the lattice."""
+    a = np.asarray(points, dtype=float)
+    r = np.rint(a / tau)
+    ok = np.isfinite(a) & (r * tau == a) & (np.abs(r) < off)
+    return np.where(ok, r, off).astype(np.int64).tolist()
+
+
 def _pow2_floor(x):
     return 2 ** int(math.floor(math.log2(x))) if x >= 1 else 1
 
@@ -554,6 +613,10 @@ def record_for(inst, shared=None):
     grid = shared["grid"] if shared else build_grid(inst)
     built = shared["built"] if shared else _snapshot(grid)
     rec["hid"], rec["step"] = (shared["hid"], shared["step"]) if shared else (0, 0)
+    rec["ops"] = [list(o) for o in shared["ops"]] if shared else []
+    if shared and gk != "g1d":
+        rec["base"] = shared["base"]
+        rec["cq"] = [inst["cy"], inst["cx"], inst["quarter"]] if api in STACKS else [0, 0, 0]
     coords = built.reshape(-1, 2).copy() if gk != "g1d" else None
     changes_frame = api in STACKS or (api == "transform" and not inst["flag"])
     if gk == "g1d":
@@ -607,14 +670,16 @@ def record_for(inst, shared=None):
     # ---- points the code computed
     recv = probe.recv
     if gk == "g1d":
-        xs = [inst["ox"] + (2 * j - (inst["w"] - 1)) * (inst["sx"] // 2) for j in inst["u"]]
-        S = min(4096, _pow2_floor(MAXRS / max(1, max(abs(x) for x in xs))))
-        rec.update({"S": S, "s": inst["sx"], "n1": inst["w"], "o": inst["ox"], "q": _fix(recv, S / tau)})
+        # the scale only has to keep |coordinate| * S inside the spec's range (the spec checks that): take it from the grid
+        S = min(4096, _pow2_floor(MAXRS / max(1.0, float(np.max(np.abs(built))) / tau + 1.0)))
+        aq, D = line_direction((angle + 90.0) if (api == "project" and angle is not None) else 0.0)
+        rec.update({"S": S, "s": inst["sx"], "n1": inst["w"], "o": inst["ox"], "q": _fix(recv, S / tau), "aq": aq, "D": D})
     elif api == "project" and gk == "g2d":
         c = np.array(centre)
         far = max([1.0] + [float(np.max(np.abs(p - c))) / tau for p in recv if np.all(np.isfinite(p))])
         S = min(4096, _pow2_floor(MAXRS / (2.0 * far)))
-        rec.update({"S": S, "s": inst["sx"], "c": [inst["cy"], inst["cx"]], "q": _fix(recv, S / tau)})
+        aq, D = line_direction((angle + 90.0) if angle is not None else 0.0)
+        rec.update({"S": S, "s": inst["sx"], "c": [inst["cy"], inst["cx"]], "q": _fix(recv, S / tau), "aq": aq, "D": D})
     if api in ("reloc",) + STACKS:
         R = exact.to_int_exact(RMIN[inst["prof"]], scale=tau, what="radial minimum")
         S = (1024 if inst["prof"] == "VProfile" else 4096) // inst["m"]
@@ -629,6 +694,8 @@ def record_for(inst, shared=None):
             lat[k] = _T(np.array([[float(dy), float(dx)]]), (0.0, 0.0), inst["quarter"] if api in STACKS else 0)[0] * tau
             tiny[k] = True
         rec.update({"R": R, "S": S, "pt": _exact_units(lat, tau), "tiny": tiny, "q": _fix(recv, S / tau)})
+    if shared and gk in ("g2d", "irr") and (api in WRAPS or api == "project" and gk == "irr"):
+        rec["recvu"] = _units_or_off(recv, tau)
     # ---- the caller's grid object, read again after everything that was done with it
     rec["gafter"] = _grid_tags(grid, built)
     return rec
@@ -643,15 +710,18 @@ def complete_history(H, seed):
     near the origin too, quarter turns, angle), the over-sampling the Grid2D carries, and per call the open parameters."""
     H = dict(H)
     key = json.dumps({k: H[k] for k in ("gk", "h", "w", "u", "par", "calls")}, sort_keys=True, default=str)
+    H["calls"] = [dict(c) if isinstance(c, dict) else c for c in H["calls"]]
     rng = np.random.default_rng([seed, len(key), sum(key.encode()) % 65521, int.from_bytes(key.encode()[-6:], "little") % (2 ** 31)])
     gk, par = H["gk"], H["par"]
     n = len(H["u"])
     H.setdefault("m", 1)
     m = H["m"]
     if gk == "g1d":
-        H.setdefault("tau", float(TAUS[int(rng.integers(0, len(TAUS)))]))
+        H.setdefault("tau", float(DYADIC_TAUS[int(rng.integers(0, len(DYADIC_TAUS)))]))   # derived coordinates stay exact
         H.setdefault("prof", "VProfile")
-        H.setdefault("sx", 2 * int(rng.integers(1, 4)))
+        # a power-of-two pixel scale: the library computes pixel centres through origin / pixel_scale, which is exact then, so
+        # the coordinates of the 1D grid (and of everything derived from it) are exactly on the lattice
+        H.setdefault("sx", int(rng.choice([2, 4, 8])))
         H.setdefault("ox", int(rng.integers(-9, 10)))
     else:
         H.setdefault("tau", 0.25 / m)
@@ -679,11 +749,16 @@ def complete_history(H, seed):
     H.setdefault("quarter", int(rng.integers(0, 4)))
     H.setdefault("keep", bool(rng.integers(0, 2)))
     if "angle" not in H:
-        H["angle"] = [-1000.0, 0.0, 30.0, 90.0, float(np.round(rng.uniform(-180, 180), 3))][int(rng.integers(0, 5))]
+        H["angle"] = _angle_pool(rng)
     calls = []
     for c in H["calls"]:
         c = {"api": c} if isinstance(c, str) else dict(c)
         api = c["api"]
+        if api == "derive":
+            c["op"] = [int(x) for x in c["op"]]
+            calls.append(c)
+            continue
+        c.pop("op", None)
         c.setdefault("rk", ("values" if gk != "irr" else ["values", "pairs"][int(rng.integers(0, 2))]) if api == "project"
                      else ("pairs" if api == "reloc" else ("values" if api == "transform" else _rk_of(api))))
         c.setdefault("lst", bool(rng.integers(0, 2)) if api in WRAPS else False)
@@ -694,18 +769,57 @@ def complete_history(H, seed):
     return H
 
 
+def _derive(grid, op, gk, tau):
+    """The caller derives a grid: arithmetic with a scalar, item assignment in place, slicing (public operators only)."""
+    code, a, b, c = op
+    if code == 1:
+        return (grid + a * tau) if a % 2 else (a * tau + grid)
+    if code == 2:
+        return (-grid) if a == -1 else ((float(a) * grid) if a % 2 else (grid * float(a)))
+    if code == 3:
+        grid[a] = b * tau if gk == "g1d" else (b * tau, c * tau)
+        return grid
+    return grid[a:]
+
+
 def history_records(H, hid=1):
-    """Build the grid ONCE, remember the coordinates it was built with, make the calls one after the other on that object."""
+    """Build the grid ONCE, remember the coordinates it was built with, make the calls one after the other on that object;
+    a `derive` step replaces the object by the one the caller derives from it (new coordinates, tracked by the spec)."""
     shared_fields = {k: v for k, v in H.items() if k not in ("calls", "k")}
     base = dict(shared_fields, api="history", exact=True, tiny=[])
+    gk, tau = H["gk"], H["tau"]
     grid = build_grid(base)
     built = _snapshot(grid)
-    if H["gk"] != "g1d":
-        _exact_units(built, H["tau"])     # relocation is decided exactly: the grid must be ON the lattice
+    base_units = _exact_units(built, tau) if gk != "g1d" else []     # relocation is decided exactly: the grid must be ON the lattice
+    ops = []
+    u, w = list(H["u"]), H["w"]
     recs = []
     for step, c in enumerate(H["calls"], start=1):
-        inst = dict(base, **c)
-        rec = record_for(inst, shared={"grid": grid, "built": built, "hid": hid, "step": step})
+        if c["api"] == "derive":
+            op = c["op"]
+            rec = {"p": "C17", "api": "derive", "gk": gk, "rk": "values", "lst": False, "h": H["h"], "raised": False,
+                   "hid": hid, "step": step, "inplace": op[0] == 3, "pn": len(u), "pafter": [], "dcoords": [],
+                   "base": base_units, "inst": dict(base, **c, history=H, step=step)}
+            if gk == "g1d":
+                rec.update({"s": H["sx"], "n1": H["w"], "o": H["ox"]})
+            parent, parent_built = grid, built
+            try:
+                new = _derive(grid, op, gk, tau)
+                if type(new) is not type(parent):
+                    raise TypeError(f"derived object is a {type(new).__name__}, parent a {type(parent).__name__}")
+                grid, built = new, _snapshot(new)
+                ops = ops + [list(op)]
+                if op[0] == 4:
+                    u, w = list(range(len(u) - op[1])), w - op[1]
+                rec["dcoords"] = _units_or_off(built, tau)
+                rec["pafter"] = _grid_tags(parent, parent_built) if op[0] != 3 else []
+            except Exception as e:  # noqa
+                rec["raised"], rec["exc"] = True, _exc(e)
+            rec.update({"ops": [list(o) for o in ops], "w": w, "u": list(u)})
+            recs.append(rec)
+            continue
+        inst = dict(base, **c, w=w, u=list(u))
+        rec = record_for(inst, shared={"grid": grid, "built": built, "hid": hid, "step": step, "ops": ops, "base": base_units})
         rec["inst"] = dict(inst, history=H, step=step)
         recs.append(rec)
     return recs
@@ -747,16 +861,22 @@ def bounds(quick):
     if quick:
         return {"shapes": all33, "mid_shapes": [s for s in all33 if s not in ((3, 3), (3, 2))], "lens": [1, 2, 3, 4],
                 "geoms": [(2, 0, 0, 3), (4, 1, -2, 3), (8, 0, 0, 10), (8, 3, -4, 10)],
-                "pgeoms": [(2, 0, 0), (4, 1, -2), (2, 3, 3)], "depths": [1, 2, 3], "lattice": 11,
+                "pgeoms": [(4, 1, -2), (2, 3, 3)], "depths": [1, 2, 3], "lattice": 10,
                 "tiny_eps": [1, 2, 3, 4], "tiny_dirs": list(TINY_DIRS), "tiny_shapes": [(1, 1), (1, 3)],
-                "hist_shapes": [(1, 2), (2, 2), (1, 3)], "hist_lens": [2, 3], "hist_geoms": [(4, 1, -2, 3), (8, 3, -4, 10)], "hist_len": 2}
+                "hist_shapes": [(1, 2), (2, 2), (1, 3)], "hist_lens": [2, 3], "hist_geoms": [(4, 1, -2, 3), (8, 3, -4, 10)], "hist_len": 2,
+                "der_shapes": [(1, 3)], "der_lens": [3], "der_geoms": [(4, 1, -2, 3)],
+                "der_ops": [o for o in DER_OPS if o != (2, 2, 0, 0)],
+                "proj_shapes": [(1, 1), (1, 2), (2, 2), (1, 3)], "angle_qs": [-2, -1, 0, 1, 2, 3, 5, 98, 99]}
     return {"shapes": all33 + [(2, 4), (4, 2), (1, 5), (5, 1)], "mid_shapes": all33, "lens": [1, 2, 3, 4, 5, 6],
             "geoms": [(2, 0, 0, 3), (2, 1, 1, 3), (4, 1, -2, 3), (4, 0, 0, 10), (8, 0, 0, 10), (8, 3, -4, 10), (6, 1, 2, 10), (10, 5, 0, 10)],
             "pgeoms": [(2, 0, 0), (4, 1, -2), (2, 3, 3), (6, -5, 2), (8, 0, 7)], "depths": [1, 2, 3, 4], "lattice": 14,
             "tiny_eps": list(range(1, len(EPS) + 1)), "tiny_dirs": list(TINY_DIRS) + [(-3, -4), (0, 2), (5, 12)],
             "tiny_shapes": [(1, 1), (1, 3), (3, 1)],
             "hist_shapes": [(1, 2), (2, 2), (1, 3), (3, 1)], "hist_lens": [2, 3, 4],
-            "hist_geoms": [(4, 1, -2, 3), (8, 3, -4, 10), (6, 1, 2, 10)], "hist_len": 3}
+            "hist_geoms": [(4, 1, -2, 3), (8, 3, -4, 10), (6, 1, 2, 10)], "hist_len": 3,
+            "der_shapes": [(1, 3)], "der_lens": [2, 3], "der_geoms": [(8, 3, -4, 10)],
+            "der_ops": list(DER_OPS) + [(1, -3, 0, 0), (3, 1, -4, 2)],
+            "proj_shapes": all33, "angle_qs": [-4, -3, -2, -1, 0, 1, 2, 3, 4, 5, 6, 98, 99]}
 
 
 def expected_count(b):
@@ -764,7 +884,7 @@ def expected_count(b):
     n1 = sum(2 ** n - 1 for n in b["lens"])
     nl = len(b["lens"])
     wrap = 6 * nm(b["shapes"]) + 6 * nl + 4 * n1
-    proj = len(b["pgeoms"]) * nm(b["mid_shapes"]) + 2 * nl + n1
+    proj = len(b["angle_qs"]) * (len(b["pgeoms"]) * nm(b["proj_shapes"]) + n1) + 2 * nl
     trans = 2 * len(b["depths"]) * (nm(b["mid_shapes"]) + 2 * nl)
     rs = {g[3] for g in b["geoms"]}
     reloc = 3 * len(b["geoms"]) * nm(b["mid_shapes"]) + 2 * (2 * b["lattice"] + 1) ** 2 * len(rs)
@@ -784,6 +904,8 @@ def enumerate_instances(ctx, b):
         f"MCTinyEps == {_tla_set(str(e) for e in b['tiny_eps'])}",
         f"MCTinyDirs == {_tla_set(_tup(d) for d in b['tiny_dirs'])}",
         f"MCTinyShapes == {_tla_set(_tup(s) for s in b['tiny_shapes'])}",
+        f"MCProjShapes == {_tla_set(_tup(s) for s in b['proj_shapes'])}",
+        f"MCAngleQs == {_tla_set(str(a) for a in b['angle_qs'])}",
         "MCNone == {}",
     ])
     res = ctx.tlc("Decorators", MC_CFG, defs=defs, tag="MC_Decorators", timeout=3000, coverage=True)
@@ -796,6 +918,8 @@ def enumerate_instances(ctx, b):
     return insts
 
 
+# derivations << code, a, b, c >>: add 6, multiply by 2, negate, g[0] = 5 / (5, -7) in place, g[1:]
+DER_OPS = ((1, 6, 0, 0), (2, 2, 0, 0), (2, -1, 0, 0), (3, 0, 5, -7), (4, 1, 0, 0))
 H_APIS = {"g1d": ("to_array", "to_grid", "project"),
           "g2d": ("reloc", "stack_array", "to_array", "to_grid", "to_vector_yx", "project"),
           "irr": ("reloc", "stack_array", "to_array", "to_grid", "to_vector_yx", "project")}
@@ -803,13 +927,36 @@ H_FIRST = {"g1d": H_APIS["g1d"], "g2d": ("reloc", "stack_array"), "irr": ("reloc
 
 
 def expected_histories(b):
+    """(complete histories, reachable states) of SpecH: plain histories, and histories call - derive - call(s)."""
     nm = lambda shapes: sum(2 ** (h * w) - 1 for h, w in shapes)
     L = b["hist_len"]
+    F, A = (lambda gk: len(H_FIRST[gk])), (lambda gk: len(H_APIS[gk]))
+    per = lambda gk: F(gk) * A(gk) ** (L - 1)
+    states = lambda gk: 1 + sum(F(gk) * A(gk) ** (l - 1) for l in range(1, L + 1))
     rs = {g[3] for g in b["hist_geoms"]}
-    per = lambda gk: len(H_FIRST[gk]) * len(H_APIS[gk]) ** (L - 1)
-    states = lambda gk: 1 + sum(len(H_FIRST[gk]) * len(H_APIS[gk]) ** (l - 1) for l in range(1, L + 1))
     n2, ni, n1 = len(b["hist_geoms"]) * nm(b["hist_shapes"]), len(b["hist_lens"]) * len(rs), sum(2 ** n - 1 for n in b["hist_lens"])
-    return n2 * per("g2d") + ni * per("irr") + n1 * per("g1d"), n2 * states("g2d") + ni * states("irr") + n1 * states("g1d")
+    leaves = n2 * per("g2d") + ni * per("irr") + n1 * per("g1d")
+    st = n2 * states("g2d") + ni * states("irr") + n1 * states("g1d")
+    # with a Derive step: the applicable derivations depend on the grid kind and on the number of points
+    def nops(gk, n):
+        return sum(1 for o in b["der_ops"] if (o[0] != 4 or (gk == "irr" and n > o[1] > 0)) and (o[0] != 3 or n > o[1]))
+    def fam(gk, n, count):
+        d = nops(gk, n)
+        lv = F(gk) * d * A(gk) ** (L - 1)
+        sts = 1 + F(gk) + F(gk) * d * sum(A(gk) ** l for l in range(0, L))
+        return count * lv, count * sts
+    drs = {g[3] for g in b["der_geoms"]}
+    for h, w in b["der_shapes"]:
+        for npix in range(1, h * w + 1):
+            lv, sts = fam("g2d", npix, math.comb(h * w, npix) * len(b["der_geoms"]))
+            leaves, st = leaves + lv, st + sts
+    for n in b["der_lens"]:
+        lv, sts = fam("irr", n, len(drs))
+        leaves, st = leaves + lv, st + sts
+        for npix in range(1, n + 1):
+            lv, sts = fam("g1d", npix, math.comb(n, npix))
+            leaves, st = leaves + lv, st + sts
+    return leaves, st
 
 
 def enumerate_histories(ctx, b):
@@ -819,6 +966,10 @@ def enumerate_histories(ctx, b):
         f"MCHistLens == {_tla_set(str(n) for n in b['hist_lens'])}",
         f"MCHistGeoms == {_tla_set(_tup(g) for g in b['hist_geoms'])}",
         f"MCHistLen == {b['hist_len']}",
+        f"MCDerShapes == {_tla_set(_tup(s) for s in b['der_shapes'])}",
+        f"MCDerLens == {_tla_set(str(n) for n in b['der_lens'])}",
+        f"MCDerGeoms == {_tla_set(_tup(g) for g in b['der_geoms'])}",
+        f"MCDerOps == {_tla_set(_tup(o) for o in b['der_ops'])}",
         "MCNone == {}",
     ])
     res = ctx.tlc("Decorators", MC_H_CFG, defs=defs, tag="MC_DecoratorsH", timeout=3000, coverage=True, workers=4)
@@ -858,6 +1009,31 @@ def random_histories(rng, count, max_side=6):
                 n = int(rng.integers(2, 13))
                 H = {"gk": gk, "h": 1, "w": n, "u": list(range(n)), "par": [0, 0, 0, R], "calls": calls}
             H["m"] = m
+        # the caller derives new grids on the way (not from a plain ndarray): after the first call, never as the last step
+        if gk != "nd" and rng.random() < 0.6:
+            n = len(H["u"])
+            calls = list(H["calls"])
+            for _ in range(int(rng.integers(1, 3))):
+                pos = int(rng.integers(1, len(calls)))
+                code = int(rng.choice([1, 2, 3, 4] if (gk == "irr" and n > 1) else [1, 2, 3]))
+                if code == 1:
+                    op = [1, int(rng.choice([-1, 1])) * int(rng.integers(1, 9)), 0, 0]
+                elif code == 2:
+                    op = [2, int(rng.choice([2, 3, -1, -2])), 0, 0]
+                elif code == 3:
+                    op = [3, int(rng.integers(0, n)), int(rng.integers(-9, 10)), int(rng.integers(-9, 10))]
+                else:
+                    # slices are applied in list order: keep the bookkeeping simple by slicing only once, at the front
+                    if any(isinstance(c, dict) and c["op"][0] == 4 for c in calls):
+                        continue
+                    op = [4, int(rng.integers(1, n)), 0, 0]
+                    if any(isinstance(c, dict) and c["op"][0] == 3 for c in calls):
+                        continue
+                    n -= op[1]
+                if op[0] == 3 and any(isinstance(c, dict) and c["op"][0] == 4 for c in calls):
+                    continue
+                calls.insert(pos, {"api": "derive", "op": op})
+            H["calls"] = calls
         out.append(H)
     return out
 
@@ -907,7 +1083,8 @@ def random_instances(rng, count, max_side=7):
                 h, w, par = 1, int(rng.integers(2, 13)), [0, 0, 0, 0]
                 u = list(range(w)) if gk == "irr" else sorted(int(x) for x in rng.choice(w, size=int(rng.integers(1, w + 1)), replace=False))
                 rk = ["values", "pairs"][int(rng.integers(0, 2))] if gk == "irr" else "values"
-            out.append({"api": "project", "gk": gk, "rk": rk, "lst": False, "h": h, "w": w, "u": u, "par": par, "depth": 0, "flag": False})
+            out.append({"api": "project", "gk": gk, "rk": rk, "lst": False, "h": h, "w": w, "u": u, "par": par, "depth": 0, "flag": False,
+                        "angle": _angle_pool(rng)})
         elif kind == 4:
             gk = ["g2d", "irr", "nd"][int(rng.integers(0, 3))]
             if gk == "g2d":
